@@ -886,6 +886,18 @@ def run_prog(case, out, env):
                   'example_history': [list(e) for e in ([evs[case['first'] or 0]] + [evs[-3]] * (depth - 1))]}
 
 
+def run_prog3s(case, out, env):
+    import numqi
+    evs = event_list(case['nq'], case['level'])
+    second = [('append_prev', 0), ('append_prev', 1), ('append_prev', 2), ('extend', 'A'), ('extend', 'B')]
+    third = [('shift', 1), ('shift', 2), ('shift', -1)]
+    for e1 in evs[case['lo']:case['hi']]:
+        for e2 in second:
+            for e3 in third:
+                run_history(numqi, out, env, (e1, e2, e3))
+    out.sample = {'kind': 'prog3s', 'example_history': [list(evs[case['lo']]), list(second[0]), list(third[0])]}
+
+
 def run_gatedef(case, out, env):
     """the matrix each vocabulary method stores == the documented formula"""
     import numqi
@@ -982,7 +994,14 @@ def build_cases(tier, seed):
         for L in range(2, depth + 1):
             for i in range(len(evs)):
                 cases.append({'kind': 'prog', 'nq': nq, 'level': level, 'depth': L, 'first': i})
-    order = {'gatedef': 0, 'gate': 1, 'prob': 2, 'expect': 3, 'dm': 4, 'inner': 5, 'prog': 6}
+    # structured depth-3 slice 're-use then shift': [any event of the medium alphabet ; re-use a gate object / a sub-circuit ; shift],
+    # i.e. every history in which one Gate object sits at two positions when the indices are shifted
+    evs_m = event_list(3, 'medium')
+    for i in range(0, len(evs_m), 12):
+        cases.append({'kind': 'prog3s', 'nq': 3, 'level': 'medium', 'lo': i, 'hi': min(i + 12, len(evs_m)), 'depth': 3})
+    info['programs'].append({'nq': 3, 'alphabet': 'medium x {append_prev 0,1,2; extend A,B} x {shift +1,+2,-1}', 'events': len(evs_m), 'max_depth': 3,
+                             'histories': len(evs_m) * 5 * 3})
+    order = {'gatedef': 0, 'gate': 1, 'prob': 2, 'expect': 3, 'dm': 4, 'inner': 5, 'prog': 6, 'prog3s': 7}
     cases.sort(key=lambda c: (order[c['kind']], c.get('depth', 0), c.get('n', c.get('nq', 0)), len(c.get('tgt', [])) + len(c.get('ctl', []))))
     info['exhaustive'] = True
     info['note'] = ('exhaustive within the stated bounds: every index pattern for n<=%d, complete operator/state bases, every history to the depth bound '
@@ -992,4 +1011,4 @@ def build_cases(tier, seed):
 
 def run_case(case, out, env):
     kind = case['kind']
-    {'gate': run_gate, 'dm': run_dm, 'expect': run_expect, 'prob': run_prob, 'inner': run_inner, 'prog': run_prog, 'gatedef': run_gatedef}[kind](case, out, env)
+    {'gate': run_gate, 'dm': run_dm, 'expect': run_expect, 'prob': run_prob, 'inner': run_inner, 'prog': run_prog, 'prog3s': run_prog3s, 'gatedef': run_gatedef}[kind](case, out, env)
